@@ -1,8 +1,8 @@
 (* Model/Tx.v — M-TX: database.TxController (internal/storage/database/tx.go: WithTx, Commit, Rollback and the
    three hook lists) composed with the hook programs the filesystem part store registers
    (partstore/filesystem/filesystem.go: PutPart, DeletePart with tx != nil).  Faithful to what the code DOES:
-   rollback hooks run in REGISTRATION order, the first failing after-commit hook ends Commit with its error
-   AFTER the database commit.  No proofs here.
+   rollback hooks run in REVERSE registration order (since fix 98ee436; before, registration order), the first
+   failing after-commit hook ends Commit with its error AFTER the database commit.  No proofs here.
 
    File system = function from paths to contents.  A part id has one final name (32 hex digits); every
    PutPart/DeletePart call creates its own temp (".<id>.<random>.tmp", os.CreateTemp) and backup
@@ -105,8 +105,9 @@ Fixpoint pre_all (ft : fault) (i : nat) (cs : list cell) (fs : fsys) : list cell
       else (c' :: r, fs', false)
   end.
 
-(* Rollback: every rollback hook, in registration order, errors do not stop the loop *)
-Definition rb_all (cs : list cell) (fs : fsys) : fsys := fold_left (fun fs c => rollback_cell c fs) cs fs.
+(* Rollback: every rollback hook, last registered first (fix 98ee436), errors do not stop the loop:
+   rb_all (c :: r) fs = rollback_cell c (rb_all r fs) *)
+Definition rb_all (cs : list cell) (fs : fsys) : fsys := fold_right rollback_cell fs cs.
 
 (* Commit, second loop: after-commit hooks until the first failure, whose error Commit returns *)
 Fixpoint after_all (ft : fault) (j : nat) (cs : list cell) (fs : fsys) : fsys * bool :=
